@@ -111,6 +111,9 @@ enum Mut {
 	ComsUnsorted,
 	// payment-proof field of the reply (C11)
 	PPStrip,
+	/// downgrade: the proof is dropped AND the reply is relabelled as the other flow's reply
+	/// (Standard2 <-> Invoice2), the state the foreign finalize dispatches on
+	PPStripRelabel,
 	PPNoSig,
 	PPResign(bool),            // signed by another wallet's address key; true: its address put in as well
 	PPOver(i64, bool, bool),   // right key, over amount+d / another excess / another sender address
@@ -221,6 +224,7 @@ impl Mut {
 			Mut::ComsAddSenderInput => json!(["ComsAddSenderInput"]),
 			Mut::ComsUnsorted => json!(["ComsUnsorted"]),
 			Mut::PPStrip => json!(["PPStrip"]),
+			Mut::PPStripRelabel => json!(["PPStripRelabel"]),
 			Mut::PPNoSig => json!(["PPNoSig"]),
 			Mut::PPResign(b) => json!(["PPResign", b]),
 			Mut::PPOver(d, e, x) => json!(["PPOver", d, e, x]),
@@ -279,6 +283,7 @@ impl Mut {
 			"ComsAddSenderInput" => Mut::ComsAddSenderInput,
 			"ComsUnsorted" => Mut::ComsUnsorted,
 			"PPStrip" => Mut::PPStrip,
+			"PPStripRelabel" => Mut::PPStripRelabel,
 			"PPNoSig" => Mut::PPNoSig,
 			"PPResign" => Mut::PPResign(b(1)),
 			"PPOver" => Mut::PPOver(i(1), b(2), b(3)),
@@ -338,6 +343,7 @@ impl Mut {
 			Mut::ComsAddSenderInput => "MComsAddSenderInput".into(),
 			Mut::ComsUnsorted => "MComsUnsorted".into(),
 			Mut::PPStrip => "MPPStrip".into(),
+			Mut::PPStripRelabel => "MPPStripRelabel".into(),
 			Mut::PPNoSig => "MPPNoSig".into(),
 			Mut::PPResign(b) => format!("(MPPResign {}%Z {})", ADDR_R2, b),
 			Mut::PPOver(d, e, x) => format!("(MPPOver {} {} {})", z(*d), e, x),
@@ -506,6 +512,8 @@ fn accepted_catalogue() -> Vec<Mut> {
 fn pp_catalogue() -> Vec<Mut> {
 	vec![
 		Mut::PPStrip,
+		Mut::PPStripRelabel,
+		Mut::PPStripRelabel,
 		Mut::PPNoSig,
 		Mut::PPResign(false),
 		Mut::PPResign(true),
@@ -1357,6 +1365,14 @@ fn apply_mut(
 		Mut::PPStrip => {
 			v.proof.as_ref()?;
 			v.proof = None;
+		}
+		Mut::PPStripRelabel => {
+			v.proof = None;
+			v.sta = match v.sta {
+				SlateStateV4::Standard2 => SlateStateV4::Invoice2,
+				SlateStateV4::Invoice2 => SlateStateV4::Standard2,
+				_ => return None,
+			};
 		}
 		Mut::PPNoSig => v.proof.as_mut()?.rsig = None,
 		Mut::PPResign(newaddr) => {
